@@ -429,8 +429,8 @@ def directed():
     c.append(Case([HDR, 'append_sampled %s %s %s %s' % (dd(-1.0), E, E, dd(0.0)), 'observe'], 'directed'))
     c.append(Case([HDR, 'append_sampled %s %s %s %s' % (dd(1.0), E, E, dd(-2.5)), 'observe'], 'directed'))
     c.append(Case([HDR, 'append_range %s %s %s' % (hx('time'), hx('spikes'), dd(1.0)), 'observe'], 'directed'))
-    c.append(Case([HDR, 'append_sampled %s %s %s %s' % (dd(1.0), hx('time'), hx('mV/'), dd(2.0)), 'observe'], 'directed'))
     c.append(Case([HDR, 'append_df foreign', 'observe'], 'directed'))
+    c.append(Case([HDR, 'append_sampled %s %s %s %s' % (dd(1.0), hx('time'), hx('mV/'), dd(2.0)), 'observe'], 'directed'))
     c.append(Case([HDR, 'append_sampled %s %s %s %s' % (dd(1.0), E, E, dd(0.0)), 's_interval 1 %s' % dd(NAN), 'observe'], 'directed'))
     c.append(Case([HDR, 'append_range %s %s %s' % (E, E, dd(1.0)), 'r_ticks 1 %s %s %s' % (dd(2.0), dd(NAN), dd(1.0)), 'observe'], 'directed'))
     c.append(Case([HDR, 'append_sampled %s %s %s %s' % (dd(1.0), E, E, dd(2.0)), 'reopen ro', 's_interval 1 %s' % dd(4.0),
@@ -528,7 +528,7 @@ class C13(Prop):
             pt = case.lines[k - 1].split(' ')
             pop, pa = pt[0], impl[k - 1]
             if pop in ('append_range', 'append_sampled') and 'InvalidUnit' in pa:
-                return {'kind': 'invalid-unit-leaves-descriptor', 'op': pop}
+                return {'kind': 'invalid-unit-leaves-descriptor'}
             if pop.startswith('append_df') and 'foreign' in pt and pa.startswith('ERR'):
                 return {'kind': 'foreign-frame-leaves-descriptor', 'op': 'append_df'}
             if pop == 'append_sampled' and pa.startswith('OK'):
@@ -545,7 +545,8 @@ class C13(Prop):
             x = undd(t[1] if op == 'append_sampled' else t[2])
             return {'kind': 'nan-interval-accepted' if x != x else 'nonpositive-interval-accepted', 'op': 'append_sampled'}
         if acc and op == 's_interval':
-            return {'kind': 'nan-interval-accepted', 'op': 's_interval'}
+            x = undd(t[2])
+            return {'kind': 'nan-interval-accepted' if x != x else 'nonpositive-interval-accepted', 'op': 's_interval'}
         if acc and op == 'r_ticks':
             return {'kind': 'nan-ticks-accepted', 'op': 'r_ticks'}
         if acc and op == 'delete_dims':
